@@ -17,20 +17,24 @@
   What is proved, for EVERY query AST `q` / program `p` (no bound on size):
     refparse_tokens_roundtrip     Printable q → refParse (tokens the printer writes for q) = q
     left_operand_needs_no_parentheses   the heart of it: precedence table vs. the printer's missing parentheses
-    lex_one_token, lex_skips_white, comment_is_gap, white_gap_separates, glue_counterexample
+    lex_one_token, lex_skips_white, comment_is_gap, comment_rule_examples, white_gap_separates, glue_counterexample
     lex_respace, lex_tokens_with_gaps   (lex_respace) tokens with arbitrary gaps of white space / comments
     lex_printed_tokens(_from)     the same for the printer's separators sp / soft / nl
     printer_output_spaced         Printable q → the printer's own output satisfies the adjacency condition
     print_parse_roundtrip_ref     Printable q → refParse (tokenize (print q)) = q
     parser_image_has_operator_shape, parser_image_printable   THE IMAGE: what the reference parser returns is Printable
-    print_parse_roundtrip_of_accepted   for every source it accepts (well-formed tokens): print, lex, parse = same AST
+    lexer_delivers_good_tokens    for EVERY source the lexer's tokens are well-formed and in lexer order
+    print_parse_roundtrip_of_accepted   for every source it accepts (no side condition): print, lex, parse = same AST
     valid_utf8_string_is_printable      string values
     print_parse_roundtrip_program_ref   whole programs: module header, imports, definitions-only bodies
+    print_parse_roundtrip_program_of_accepted   the same for every program source it accepts
     print_parse_roundtrip_tables / _program_tables   … and, under RefAgreesWithTables, for Parse on the shipped tables
+    print_parse_roundtrip_of_agreement  the ORIGINAL statement (Parse on the tables, Printer.print) under the three stream-validated agreement hypotheses
     not_printable_…               six witnesses that the side condition is needed
   `Printable` (Model: `okQ true 1`) is the decidable shape invariant of the parser's image.
 -/
 import Gojq.Proofs.RoundTripMain
+import Gojq.Props.C09.RoundTrip
 namespace Gojq.C09
 open Gojq Gojq.Lexer Gojq.RefTerm
 
@@ -126,7 +130,9 @@ theorem lex_printed_tokens_from (items : List Item) (last : Option UInt8) (inStr
   lex_items items last inStr stk f h hf
 
 /-- LEX_RESPACE FOR ARBITRARY GAPS: a text given as tokens, each preceded by a gap of white space
-    and `#` comments (`IsGap`; comment bodies without `\\` and CR), and a trailing gap.  Under the
+    and `#` comments up to their line end (`IsGap`; gojq's full comment rule `commentEnd`: a
+    backslash inside a comment consumes a following backslash, LF, CR or CR LF; a comment ends at
+    an LF or CR), and a trailing gap.  Under the
     adjacency condition `GapsOK` — no gap inside an interpolated string literal, every token
     well-formed and `stops` before the text that follows it — the tokenizer returns exactly the
     tokens; so any two spacings of one token sequence that satisfy it have the same tokens. -/
@@ -152,9 +158,20 @@ theorem white_gap_separates (t : Tok) (w : UInt8) (X : Bytes) (hw : isWhite w = 
     (hn : t.inStrTok = false) (hs : t ≠ .strStart) : stops t (w :: X) = true :=
   stops_white t w X hw hwf hn hs
 
-/-- A COMMENT UP TO ITS LINE FEED IS A GAP -/
+/-- A COMMENT UP TO THE LINE END THAT TERMINATES IT IS A GAP (`IsGap`: white bytes and comments):
+    `Lex` returns the same token, value, unread source and mode as without the gap -/
 theorem comment_is_gap (g X : Bytes) (hg : IsGap g) : lx (g ++ X) false = lx X false :=
   lx_gap g X hg
+
+/-- gojq's comment rule in full (`commentEnd`, decidable): `# a\<LF> b<LF>` is ONE comment — the
+    backslash continues it over the line feed —, `# a<CR>` ends at the CR, `# a\\<LF>` ends at the
+    LF (the second backslash is consumed by the first) -/
+theorem comment_rule_examples :
+    commentEnd .comment [32, 97, 92, 10, 32, 98, 10] = true ∧ commentEnd .comment [32, 97, 92, 10] = false ∧
+    commentEnd .comment [32, 97, 13] = true ∧ commentEnd .comment [32, 97, 92, 92, 10] = true ∧
+    commentEnd .comment [32, 97, 92, 13, 10, 98, 10] = true ∧
+    tokensOf /- 1# a\<LF> b<LF>+2 -/ [49, 35, 32, 97, 92, 10, 32, 98, 10, 43, 50] = [.number [49], .ch 43, .number [50]] := by
+  decide +kernel
 
 /-- deleting white space where `stops` fails DOES change the tokens: `1 .a` / `1.a`, `. .a` / `..a`,
     `a :: b`-like gluing `a: :b`, `- =` … (here: `1 .a` has the tokens number, index; `1.a` is an
@@ -187,13 +204,27 @@ theorem print_parse_roundtrip_ref (q : Query) (hp : Printable q = true) :
     ∃ F, ∀ f, F ≤ f → refParseQ f (tokensOf (printQ q)) = some q :=
   roundtrip_printable q hp
 
-/-- FOR EVERY SOURCE THE REFERENCE PARSER ACCEPTS: if `src` lexes to well-formed tokens and parses
-    to `q`, then printing `q`, lexing and parsing again gives `q` — the property as stated, for the
-    reference parser, with the image characterised (`parser_image_printable`) rather than assumed. -/
+/-- THE LEXER DELIVERS GOOD TOKENS: for EVERY source (valid or not) the tokens `Lex` returns are
+    well-formed (identifiers are identifiers, numbers scan as numbers, string values are valid
+    UTF-8 that the printer's escaping decodes back, …) and the tokens of interpolated strings come
+    in lexer order (after the opening quote a `\(`, directly or after one literal piece; never two
+    literal pieces in a row). -/
+theorem lexer_delivers_good_tokens (src : Bytes) : goodB (tokensOf src) = true :=
+  goodB_tokensOf src
+
+/-- what the reference parser returns on ANY source is Printable: the image characterised -/
+theorem accepted_is_printable (src : Bytes) (f : Nat) (q : Query)
+    (h : refParseQ f (tokensOf src) = some q) : Printable q = true :=
+  printable_of_accepted src f q h
+
+/-- FOR EVERY SOURCE THE REFERENCE PARSER ACCEPTS — no side condition: if `src` parses to `q`, then
+    printing `q`, lexing and parsing again gives `q` — the property as stated, for the reference
+    parser, with the image characterised (`parser_image_printable`, `lexer_delivers_good_tokens`)
+    rather than assumed. -/
 theorem print_parse_roundtrip_of_accepted (src : Bytes) (f : Nat) (q : Query)
-    (hg : goodB (tokensOf src) = true) (h : refParseQ f (tokensOf src) = some q) :
+    (h : refParseQ f (tokensOf src) = some q) :
     ∃ F, ∀ f', F ≤ f' → refParseQ f' (tokensOf (printQ q)) = some q :=
-  roundtrip_of_accepted src f q hg h
+  roundtrip_of_accepted src f q h
 
 /-- THE HYPOTHESIS KEPT EXPLICIT: the shipped LALR tables with the semantic actions accept what
     the reference parser accepts and build the same AST (compared as the canonical dump the
@@ -229,6 +260,49 @@ theorem print_parse_roundtrip_program_tables (hyp : RefAgreesWithTablesProgram) 
     ∃ t s v, Parse.parse (printProgram p) = .accept t s ∧ Parse.sem t = .ok v ∧
       Parse.dump v.val = Parse.dump (astProgram p) :=
   hyp (printProgram p) p (roundtrip_program p hp)
+
+/-- what the reference parser returns on ANY program source is a Printable program -/
+theorem accepted_program_is_printable (src : Bytes) (f : Nat) (p : Program) (h : refParseF f src = some p) :
+    PrintableProgram p = true :=
+  printableProgram_of_accepted src f p h
+
+/-- FOR EVERY PROGRAM SOURCE THE REFERENCE PARSER ACCEPTS — no side condition: print, lex, parse
+    gives the same program (module header, imports, definitions, query). -/
+theorem print_parse_roundtrip_program_of_accepted (src : Bytes) (f : Nat) (p : Program)
+    (h : refParseF f src = some p) :
+    ∃ F, ∀ f', F ≤ f' → refParseF f' (printProgram p) = some p :=
+  roundtrip_program_of_accepted src f p h
+
+/-- the converse hypothesis: what the shipped tables accept, the reference parser accepts, with the
+    same AST (stream `refparse` compares accepted AND rejected sources) -/
+def TablesAgreeWithRefProgram : Prop :=
+  ∀ (src : Bytes) (t : LALR.PT LVal) (s : LState) (v : Parse.Sem), Parse.parse src = .accept t s → Parse.sem t = .ok v →
+    ∃ f p, refParseF f src = some p ∧ Parse.dump v.val = Parse.dump (astProgram p)
+
+/-- the hypothesis on the two printer models: on a source both parsers accept, `Printer.print`
+    (Model/Printer.lean, the `writeTo` methods over the uniform AST; stream `print`) writes what
+    the token-level printer `printProgram` writes (stream `refprint`) — both are compared with the
+    real `String()` on every accepted source of the run -/
+def PrinterAgreesWithRef : Prop :=
+  ∀ (src : Bytes) (t : LALR.PT LVal) (s : LState) (v : Parse.Sem) (f : Nat) (p : Program) (text : Bytes),
+    Parse.parse src = .accept t s → Parse.sem t = .ok v → refParseF f src = some p →
+    Printer.print (src.length + 16) v.val = some text → text = printProgram p
+
+/-- THE PROPERTY AS ORIGINALLY STATED (`print_parse_roundtrip_statement`: for every source `Parse`
+    accepts — lexer, shipped LALR tables, semantic actions —, printing the AST with `String()` and
+    parsing the text again gives the same AST), DERIVED from the theorems above under the three
+    hypotheses that connect the reference parser / token-level printer to the table-driven parser
+    and the `writeTo` model.  The three hypotheses are exactly what the streams `parse`,
+    `refparse`, `print`, `refprint` compare on every source of every run; nothing else is assumed:
+    the image (`Printable`), the spacing, the lexer's tokens are all proved. -/
+theorem print_parse_roundtrip_of_agreement (h1 : RefAgreesWithTablesProgram) (h2 : TablesAgreeWithRefProgram)
+    (h3 : PrinterAgreesWithRef) : print_parse_roundtrip_statement := by
+  intro src t s q text hacc hsem hprint
+  obtain ⟨f, p, hp, hd⟩ := h2 src t s q hacc hsem
+  have ht := h3 src t s q f p text hacc hsem hp hprint
+  subst ht
+  obtain ⟨t', s', q', a1, a2, a3⟩ := h1 (printProgram p) p (roundtrip_program_of_accepted src f p hp)
+  exact ⟨t', s', q', a1, a2, by rw [a3, hd]⟩
 
 /-! ### 4. the side condition is needed: ASTs outside the parser's image do not round-trip -/
 
@@ -321,7 +395,7 @@ example : refParseQ 60 (tokensOf (printQ qE)) = some qE := by rfl
 example : (refParseQ 80 (tokensOf (printQ qF))).map (fun q => toks (itemsQ q)) = some (toks (itemsQ qF)) := by
   decide +kernel
 
-/-- the hypotheses of `print_parse_roundtrip_of_accepted` on concrete sources -/
+/-- `lexer_delivers_good_tokens` on a concrete source -/
 example : goodB (tokensOf /- "a\(1 + 2)b" | . as [$x, {k: $y}] ?// $z | -.a."b"[1:]? -/
     [34, 97, 92, 40, 49, 43, 50, 41, 98, 34, 32, 124, 32, 46, 32, 97, 115, 32, 91, 36, 120, 44, 32, 123, 107, 58, 32,
      36, 121, 125, 93, 32, 63, 47, 47, 32, 36, 122, 32, 124, 32, 45, 46, 97, 46, 34, 98, 34, 91, 49, 58, 93, 63]) = true := by
